@@ -458,10 +458,20 @@ type Integer interface {
 	~int8 | ~uint8 | ~int16 | ~uint16 | ~int32 | ~uint32 | ~int64 | ~uint64 | ~int | ~uint | ~uintptr
 }
 
+// ShmPoints switches scheduling points at plain shared-memory accesses (Ld/St) on or off. Session-level
+// scenarios switch them off: the free list and the queue are explored at that granularity on their own
+// (C01, C02, C04), and atomics stay scheduling points.
+var shmPointsOff bool
+
+func ShmPoints(on bool) { shmPointsOff = !on }
+
 // Ld is a plain load from shared memory: a scheduling point, then the load (rule A6).
 func Ld[T Integer](p *T) T {
 	x := X
 	if x == nil {
+		return *p
+	}
+	if shmPointsOff {
 		return *p
 	}
 	if !x.aborting {
@@ -475,7 +485,7 @@ func Ld[T Integer](p *T) T {
 // St is a plain store to shared memory: a scheduling point, then the store.
 func St[T Integer](p *T, v T) {
 	x := X
-	if x == nil {
+	if x == nil || shmPointsOff {
 		*p = v
 		return
 	}
